@@ -25,7 +25,8 @@ Local Notation emap := (emap N).
 Inductive node :=
 | NEl (e : el) (kids : list node)      (* start tag .. end tag *)
 | NLeaf (e : el)                        (* empty element *)
-| NComment (s : string) | NText (s : string) | NCData (s : string) | NOther.
+| NComment (s : string) | NText (s : string) | NCData (s : string)
+| NOther (t : tok).                    (* declaration, processing instruction, doctype: kept only by the pass-through *)
 Inductive tag :=
 | TgEl (e : el) (kids : option (list node)) (tail : option string)
 | TgComment (c : string) (tail : option string)
@@ -148,7 +149,7 @@ Fixpoint raw_events (n : node) : evs :=
   match n with
   | NEl e kids => oel true e :: flat_map raw_events kids ++ [OEnd (ename N e)]
   | NLeaf e => [oel false e]
-  | NComment s => [OComment s] | NText s => [OText s] | NCData s => [OCData s] | NOther => []
+  | NComment s => [OComment s] | NText s => [OText s] | NCData s => [OCData s] | NOther t => [ORaw t]
   end.
 
 (* tagify_events: text / CDATA following a tag becomes its tail; leading text is a tag of its own *)
@@ -164,7 +165,7 @@ Fixpoint tagify_go (ns : list node) (acc : list tag) : list tag :=    (* acc rev
       | NComment s => tagify_go r (TgComment s None :: acc)
       | NText s => tagify_go r (match acc with t :: a => set_tail t s :: a | [] => [TgText s] end)
       | NCData s => tagify_go r (match acc with t :: a => set_tail t s :: a | [] => [TgCData s] end)
-      | NOther => tagify_go r acc
+      | NOther _ => tagify_go r acc
       end
   end.
 Definition tagify (ns : list node) : list tag := tagify_go ns [].
